@@ -495,11 +495,115 @@ func (e *Engine) applyContract(fr *Frame, st *State, ins ssa.Instruction, c *Con
 		e.assumeWFVal(fr, st, v, sig.Results().At(i).Type())
 		res = append(res, v)
 	}
+	var ens []*Term
 	for _, cl := range c.Ensures {
 		g := e.evalCalleeClause(fr, st, pre, c, callee, cl, args, res).(*Term)
 		e.addFactQ(st, g)
+		ens = append(ens, g)
+	}
+	// results declared fresh by the contract: rootid(X) >= clock-before-the-call
+	for _, g := range ens {
+		var cs []*Term
+		if g.Op == "and" {
+			cs = g.Args
+		} else {
+			cs = []*Term{g}
+		}
+		for _, c := range cs {
+			if c.Op == ">=" && c.Args[0].Op == "app" && c.Args[0].Name == "rootid" && c.Args[1] == pre.clock {
+				e.tb.NewRefs[c.Args[0].Args[0]] = true
+			}
+		}
+	}
+	// results that are fresh struct constants: substitute the fields the contract defines by equalities
+	for i, r := range res {
+		if t, ok := r.(*Term); ok && t.Op == "const" {
+			if _, isDT := e.tb.dtDecl[string(t.Sort)]; isDT && t.Sort != SSlice && t.Sort != SStr && t.Sort != SIface {
+				res[i] = e.rewriteByEqualities(t, ens)
+			}
+		}
 	}
 	return packResults(res)
+}
+
+// rewriteByEqualities rebuilds the fresh constant x using top-level conjunct equalities field-path(x) == t
+// (t not mentioning x) found in the given assumed facts. The result is equal to x under those facts.
+func (e *Engine) rewriteByEqualities(x *Term, facts []*Term) *Term {
+	tb := e.tb
+	var conj []*Term
+	var flat func(t *Term)
+	flat = func(t *Term) {
+		if t.Op == "and" {
+			for _, a := range t.Args {
+				flat(a)
+			}
+			return
+		}
+		conj = append(conj, t)
+	}
+	for _, f := range facts {
+		flat(f)
+	}
+	mentions := func(t *Term) bool {
+		found := false
+		vis := map[*Term]bool{}
+		var rec func(t *Term)
+		rec = func(t *Term) {
+			if found || vis[t] {
+				return
+			}
+			vis[t] = true
+			if t == x {
+				found = true
+				return
+			}
+			for _, a := range t.Args {
+				rec(a)
+			}
+		}
+		rec(t)
+		return found
+	}
+	cur := x
+	for _, c := range conj {
+		var lhs, rhs *Term
+		switch {
+		case c.Op == "=":
+			lhs, rhs = c.Args[0], c.Args[1]
+		case c.Sort == SBool && c.Op == "acc":
+			lhs, rhs = c, tb.True()
+		case c.Op == "not" && c.Args[0].Op == "acc":
+			lhs, rhs = c.Args[0], tb.False()
+		default:
+			continue
+		}
+		for pass := 0; pass < 2; pass++ {
+			var path []int
+			y := lhs
+			ok := true
+			for y.Op == "acc" {
+				d := tb.dtDecl[string(y.Args[0].Sort)]
+				idx := -1
+				for i, f := range d.Fields {
+					if f.Name == y.Name {
+						idx = i
+					}
+				}
+				if idx < 0 {
+					ok = false
+					break
+				}
+				path = append([]int{idx}, path...)
+				y = y.Args[0]
+			}
+			if ok && y == x && len(path) > 0 && !mentions(rhs) {
+				cur = e.withPath(cur, path, rhs)
+				break
+			}
+			lhs, rhs = rhs, lhs
+		}
+	}
+	return cur
 }
 
 // addFactQ adds an assumed clause; universally quantified parts get patterns.
@@ -733,7 +837,7 @@ func (e *Engine) builtin(fr *Frame, st *State, ins ssa.Instruction, b *ssa.Built
 	case "ssa:wrapnilchk":
 		return args[0]
 	case "ssa:deferstack":
-		return tb.Const("deferstack", SOpq)
+		return &PtrVal{Kind: KNil}
 	case "print", "println":
 		return nil
 	case "recover":
